@@ -488,8 +488,49 @@ func memQuery(fr *frame, args []value, mode string) []*mRow {
 	if mode != "get" && len(key) != len(idx.parts) {
 		cx.unsupported(fmt.Sprintf("memdb: %s with partial key", mode))
 	}
-	rows := sortedRows(cx, tx.readTable(table), idx)
 	var out []*mRow
+	if mode == "get" {
+		// equality lookups need no ordering of the whole table
+		var matched []keyedRow
+		for _, r := range tx.readTable(table).rows {
+			k, ok := rowKey(cx, idx, r.obj)
+			if ok && keyCmp(cx, k, key, len(key)) == 0 {
+				matched = append(matched, keyedRow{r, k})
+			}
+		}
+		if len(key) < len(idx.parts) && len(matched) > 1 {
+			// prefix lookup: order by the remaining components
+			for i := 1; i < len(matched); i++ {
+				for j := i; j > 0; j-- {
+					c := 0
+					for q := len(key); q < len(idx.parts) && c == 0; q++ {
+						if !partEq(cx, matched[j].key[q], matched[j-1].key[q]) {
+							if partLess(cx, matched[j].key[q], matched[j-1].key[q]) {
+								c = -1
+							} else {
+								c = 1
+							}
+						}
+					}
+					if c < 0 {
+						matched[j], matched[j-1] = matched[j-1], matched[j]
+					} else {
+						break
+					}
+				}
+			}
+		}
+		for _, m := range matched {
+			out = append(out, m.row)
+		}
+		if idx.unique && len(key) == len(idx.parts) && len(out) > 1 {
+			// a unique index holds one entry per key: the latest insert wins
+			sort.SliceStable(out, func(i, j int) bool { return out[i].seq < out[j].seq })
+			out = out[len(out)-1:]
+		}
+		return out
+	}
+	rows := sortedRows(cx, tx.readTable(table), idx)
 	switch mode {
 	case "get":
 		for _, r := range rows {
